@@ -118,6 +118,28 @@ def cstallOp : List String → String
     | _, _ => "BADLINE"
   | l => if l.getLast? == some "PANIC" then propfail "panic" else "BADLINE"
 
+/-- `tstall <client s|a|c> <T ms> <mode w|r> <at> | result@is_timeout@elapsed[;…]`: the peer goes silent around the TLS
+    layer (no answer to the ClientHello, to STARTTLS, or to a command inside TLS). The stalled send fails within a small
+    multiple of T with an error that says it is a timeout; the next send (a new connection, served to the end) succeeds. -/
+def tstallOp : List String → String
+  | [client, tms, _mode, _at, res] =>
+    if res == "PANIC" then propfail "panic" else
+    match tms.toNat?, (res.splitOn ";").mapM parseObs with
+    | some t, some (o :: rest) =>
+      if o.result.startsWith "setup" then propfail s!"connection-could-not-be-set-up:{o.result}"
+      else if o.result == "HANG" then propfail "send-blocked-far-beyond-the-timeout"
+      else if o.result.startsWith "ok" then propfail "send-succeeded-although-the-peer-went-silent"
+      else if o.elapsed > 4 * t + 1500 then propfail "send-returned-late"
+      else if o.timeoutFlag != "t" then propfail "timeout-error-does-not-identify-itself-as-timeout"
+      else match rest with
+        | [] => if client == "c" then "ok" else propfail "no-second-send"
+        | o2 :: _ =>
+          if o2.result == "HANG" then propfail "send-after-a-stalled-one-blocked"
+          else if !o2.result.startsWith "ok" then propfail s!"send-after-a-stalled-one-failed:{o2.result}"
+          else "ok"
+    | _, _ => "BADLINE"
+  | l => if l.getLast? == some "PANIC" then propfail "panic" else "BADLINE"
+
 /-- `shut slowquit <client> | t1 t2 t3 r3 quitseen r0` and `shut atreturn <client> <k> | k idle quits eofs` (C09: what
     holds at the moment `shutdown` returns, and its promptness) -/
 def shutOp : List String → String
